@@ -5,7 +5,9 @@ wt=$1; patch=$2; shift 2
 git -C "$wt" checkout -q -- . && git -C "$wt" apply "$patch" || { echo "patch does not apply"; exit 3; }
 for p in "$@"; do
   VF_REPO=$wt /verif/vf check $p --tier ${TIER:-quick} > /tmp/try_$$.log 2>&1; rc=$?
-  echo "== $p rc=$rc"; grep -E "^(VIOLATION|KNOWN|INCONCLUSIVE|RESULT|    failing)" /tmp/try_$$.log | cut -c1-220 | head -12
+  echo "== $p rc=$rc"
+  grep -E "^    failing" /tmp/try_$$.log | sort -u | cut -c1-220 | head -8
+  grep -E "^(VIOLATION|KNOWN|INCONCLUSIVE|RESULT)" /tmp/try_$$.log | cut -c1-220 | head -8
 done
 rm -f /tmp/try_$$.log
 git -C "$wt" checkout -q -- .
